@@ -256,9 +256,13 @@ def r3_discipline(ctx):
               f'row counter updates: {[f"{src(i)} @ line {i.lineno}" for i in incs]}: the line number reported with an error drifts')
     # self.errors is written nowhere else in the importer (except __init__)
     imp = ctx.prog.cls(f'{N.IMPORTER}.Importer')
+    from . import shared
+    importing = shared.on_path(ctx, [f'{N.IMPORTER}.Importer.run', f'{N.IMPORTER}.Importer.import_file', f'{N.IMPORTER}.Importer.import_string'])
     for f in imp.methods.values():
         if ctx.prog.is_glue(f):
             continue        # an extracted helper: its statements are judged where they were inlined
+        if id(f.node) not in importing:
+            continue        # not part of an import (e.g. an API that lets the caller forget the errors)
         for n in walk_local(f.node):
             if isinstance(n, ast.Call) and isinstance(n.func, ast.Attribute) and src(n.func.value) == 'self.errors' \
                     and n.func.attr in ('append', 'extend', 'insert', 'pop', 'remove', 'clear'):
